@@ -8,6 +8,8 @@ import (
 	"os"
 	"time"
 
+	gonnx "github.com/advancedclimatesystems/gonnx"
+
 	"verifsim/corpus"
 	"verifsim/evid"
 	"verifsim/rng"
@@ -49,6 +51,49 @@ type drawnModel struct {
 	sensitive bool
 }
 
+// declareOutputs gives the graph outputs static shape declarations (exporters do; gonnx exposes them through
+// OutputShapes): exact, dynamic on the first axis, or "mis-spelled" by a size-one axis, which some exporters produce.
+// The actual output shapes are taken from one run on the first input set.
+func declareOutputs(r *rng.R, e *corpus.Entry) {
+	m, err := gonnx.NewModelFromBytes(e.Model.Bytes())
+	if err != nil || len(e.InputSets) == 0 {
+		return
+	}
+	in := gonnx.Tensors{}
+	for k, v := range e.InputSets[0] {
+		in[k] = v.Tensor()
+	}
+	var out gonnx.Tensors
+	if kind, _ := guardRun(func() (err error) { out, err = m.Run(in); return }); kind != "ok" {
+		return
+	}
+	for i := range e.Model.Outputs {
+		o := &e.Model.Outputs[i]
+		sv := val.Snap(out[o.Name])
+		if sv == nil || sv.Bad != "" || sv.DT <= 0 || len(sv.Shape) == 0 {
+			continue
+		}
+		sh := make([]int64, len(sv.Shape))
+		for k, d := range sv.Shape {
+			sh[k] = int64(d)
+		}
+		switch r.Intn(5) {
+		case 0: // exact
+		case 1:
+			sh[0] = 0
+		case 2:
+			sh = append([]int64{1}, sh...)
+		case 3:
+			sh = append(sh, 1)
+		case 4:
+			for k := range sh {
+				sh[k] = 0
+			}
+		}
+		o.DT, o.Shape, o.NoShape = sv.DT, sh, false
+	}
+}
+
 func fromEntry(e *corpus.Entry) drawnModel {
 	return drawnModel{spec: ModelSpec{Name: e.Name + fmt.Sprint(e.Bindings), Bytes: e.Model.Bytes(), Ops: e.Ops}, inputSets: e.InputSets, nNodes: len(e.Model.Nodes), sensitive: e.Sensitive}
 }
@@ -75,11 +120,17 @@ func (l *library) drawModel(r *rng.R) drawnModel {
 		if r.Chance(1, 5) {
 			corpus.RenameTricky(r, e)
 		}
+		if r.Chance(1, 5) {
+			declareOutputs(r, e)
+		}
 		return fromEntry(e)
 	case x < 17 || len(l.samples) == 0:
 		e := corpus.DrawDAG(r)
 		if r.Chance(1, 5) {
 			corpus.RenameTricky(r, e)
+		}
+		if r.Chance(1, 5) {
+			declareOutputs(r, e)
 		}
 		return fromEntry(e)
 	default:
@@ -192,7 +243,15 @@ func drawTask(r *rng.R, models []drawnModel, n int, allowLoad bool) Task {
 		k := r.Intn(100)
 		switch {
 		case k < 28 || (len(prev) == 0 && k < 60):
-			t.Calls = append(t.Calls, Call{Kind: KRun, Model: mi, Inputs: set(), Ref: -1})
+			c := Call{Kind: KRun, Model: mi, Inputs: set(), Ref: -1}
+			if r.Chance(1, 12) {
+				// the caller hands over tensors in a less common but legal state
+				c.Flavour = map[string]string{}
+				for _, name := range sortedKeys(c.Inputs) {
+					c.Flavour[name] = []string{"lazyT", "view", ""}[r.Intn(3)]
+				}
+			}
+			t.Calls = append(t.Calls, c)
 		case k < 48 && len(prev) > 0:
 			t.Calls = append(t.Calls, Call{Kind: KSame, Model: mi, Ref: prev[r.Intn(len(prev))]})
 		case k < 60 && len(prev) > 0:
@@ -203,7 +262,7 @@ func drawTask(r *rng.R, models []drawnModel, n int, allowLoad bool) Task {
 		case k < 90:
 			t.Calls = append(t.Calls, Call{Kind: KOpFault, Model: mi, Inputs: set(), Ref: -1, Fault: drawFault(r, dm.nNodes)})
 		case k < 94:
-			t.Calls = append(t.Calls, Call{Kind: KIntrospect, Model: mi, Ref: -1})
+			t.Calls = append(t.Calls, Call{Kind: KIntrospect, Model: mi, Ref: -1, Scribble: r.Chance(1, 2)})
 		default:
 			if !allowLoad {
 				continue
